@@ -401,6 +401,45 @@ func famMeta() family {
 	}}
 }
 
+// border-image family: deviation level <= 3 inside the group (quick), full product (thorough).
+func famBorderImage(thorough bool) []family {
+	slots := slotsBI()
+	if thorough {
+		total := int64(1)
+		for _, sl := range slots {
+			total *= int64(len(sl.choices) + 1)
+		}
+		return []family{{"I", total, func(i int64) (*spec, int) {
+			s := biSpecBase()
+			var ps []pick
+			for k := len(slots) - 1; k >= 0; k-- {
+				n := int64(len(slots[k].choices) + 1)
+				if c := int(i % n); c > 0 {
+					ps = append([]pick{{k, c - 1}}, ps...)
+				}
+				i /= n
+			}
+			l := &lattice{slots: slots}
+			l.apply(s, ps)
+			return s, len(ps)
+		}}}
+	}
+	l := newLattice(slots)
+	mk := func(name string, n int64, dev int, f func(int64) []pick) family {
+		return family{name, n, func(i int64) (*spec, int) {
+			s := biSpecBase()
+			l.apply(s, f(i))
+			return s, dev
+		}}
+	}
+	return []family{
+		mk("I0", 1, 0, func(int64) []pick { return nil }),
+		mk("I1", l.n1, 1, l.level1),
+		mk("I2", l.n2, 2, l.level2),
+		mk("I3", l.n3, 3, l.level3),
+	}
+}
+
 func (c *check) Init(tier string, seed int64) engine.Space {
 	c.tier = tier
 	thorough := tier == "thorough"
@@ -412,6 +451,7 @@ func (c *check) Init(tier string, seed int64) engine.Space {
 	} else {
 		c.fams = append(c.fams, famBookmarks(4), famLinks(4, 3), famMeta())
 	}
+	c.fams = append(c.fams, famBorderImage(thorough)...)
 	c.total = 0
 	c.starts = nil
 	sizes := map[string]any{}
@@ -447,7 +487,7 @@ func (c *check) Init(tier string, seed int64) engine.Space {
 	}
 	return engine.Space{
 		Units: c.total, Chunk: 48, Level: "model_checking",
-		Rule:   "one unit = one document: G0..G2 (G3 thorough) = every document with <= 2 (3: core menus) deviations from the skeleton over the listed slots; B = every bookmark-level sequence x page pattern x variant; L = every assignment of ids {none,a,b} to 1..4 elements x every placement of <= 2 forced page breaks x at most one special box kind; M = full product of the title/keywords/other-meta menus. A case is non-trivial when the render completed and the document produced at least one anchor, link, bookmark or metadata value that the oracle compared.",
+		Rule:   "one unit = one document: G0..G2 (G3 thorough) = every document with <= 2 (3: core menus) deviations from the skeleton over the listed slots; B = every bookmark-level sequence x page pattern x variant; L = every assignment of ids {none,a,b} to 1..4 elements x every placement of <= 2 forced page breaks x at most one special box kind; M = full product of the title/keywords/other-meta menus; I = border-image group (source x slice x repeat x width x outset x border widths x box x zoom): every document with <= 3 deviations inside the group (thorough: the full product). A case is non-trivial when the render completed and the document produced at least one anchor, link, bookmark or metadata value that the oracle compared.",
 		Bounds: c.bounds,
 		Assumptions: []string{
 			"Paint(0) (the 'end path without painting' operation) on an empty path is not counted as painting",
